@@ -90,6 +90,7 @@ type Control struct {
 		File string `json:"file"`
 		Old  string `json:"old"`
 		New  string `json:"new"`
+		All  bool   `json:"all,omitempty"` // replace every occurrence (the same edit at sibling sites)
 	} `json:"edits,omitempty"`
 	// Repaired: a control that must be SILENT (a repaired variant of a finding / a behaviour-preserving refactor)
 	Silent bool `json:"silent,omitempty"`
@@ -152,7 +153,8 @@ func runControl(self, prop string, cf commonFlags, ctl Control) ControlResult {
 			File string `json:"file"`
 			Old  string `json:"old"`
 			New  string `json:"new"`
-		}{ctl.File, ctl.Old, ctl.New})
+			All  bool   `json:"all,omitempty"`
+		}{ctl.File, ctl.Old, ctl.New, false})
 	}
 	tmp, err := os.MkdirTemp("", "kvet-ctl-")
 	if err != nil {
@@ -173,11 +175,11 @@ func runControl(self, prop string, cf commonFlags, ctl Control) ControlResult {
 			}
 			src = string(b)
 		}
-		if strings.Count(src, e.Old) != 1 {
-			r.Status, r.Detail = "inapplicable", fmt.Sprintf("old text occurs %d times in %s (tree edited)", strings.Count(src, e.Old), e.File)
+		if n := strings.Count(src, e.Old); n != 1 && !(e.All && n > 1) {
+			r.Status, r.Detail = "inapplicable", fmt.Sprintf("old text occurs %d times in %s (tree edited)", n, e.File)
 			return r
 		}
-		content[abs] = strings.Replace(src, e.Old, e.New, 1)
+		content[abs] = strings.ReplaceAll(src, e.Old, e.New)
 	}
 	i := 0
 	for abs, src := range content {
